@@ -615,7 +615,7 @@ def _signature_names(names, fn_t):
     for K in PARAM_KINDS:
         ts = [_kind_truth(c, K) for c in names.a[3]]
         if any(t is None for t in ts):
-            return False
+            return None  # a test on something this reading has no value for: not a verdict
         if all(ts):
             kinds.add(K)
     return kinds == {"POSITIONAL_OR_KEYWORD", "KEYWORD_ONLY"}
@@ -823,58 +823,70 @@ def rule_filterimpl(ctx):
             continue
         need(len(kws) == 1 and len(c.kw) == 1, "C03.FILTERIMPL", "unexpected keyword forwarding shape")
         kwt = kws[0]
-        by_kind = _filter_by_kind(kwt, kwa, fn_t, s)
-        if by_kind is not None:
-            acc, names, from_items, extra = by_kind
-            ctx.cache["filter_name_source"] = "signature"
-            yield ob("C03.FILTERIMPL", f, "util.filter_kwargs:passthrough", acc == {"VAR_KEYWORD"}, "all keywords are passed through exactly when the callee's signature has a **kwargs parameter (kinds that switch the filter off: %s)" % sorted(acc), node=c.node)
-            yield ob("C03.FILTERIMPL", f, "util.filter_kwargs:filter", from_items and names == {"POSITIONAL_OR_KEYWORD", "KEYWORD_ONLY"} and not extra, "a keyword is kept iff it names a parameter of kind %s of inspect.signature(callee), with its own value%s" % (sorted(names), "; extra conditions %s" % extra if extra else ""), node=c.node)
-            continue
-        passthrough = kwt is kwa
-        under_has_kwargs = any(call_name(cnd) == "util.has_kwargs" and p for cnd, p in symeval.pc_conds(c.pc))
-        if passthrough:
-            yield ob("C03.FILTERIMPL", f, "util.filter_kwargs:passthrough", under_has_kwargs, "all keywords are passed through only when the callee has **kwargs", node=c.node)
-        else:
-            entries = []  # (key term, value term, [condition terms], n_loops, node)
-            if kwt.op == "comp" and kwt.a[0] == "dict":
-                # {k: v for k, v in kwargs.items() if ...}
-                elt = kwt.a[1]
-                if elt.op == "tuple" and len(elt.a) == 2:
-                    entries.append((elt.a[0], elt.a[1], list(kwt.a[3]), len(kwt.a[2]), c.node))
+        # one call whose keyword dict is chosen by a conditional (`kwargs = {filtered} if not has_kwargs(f) else kwargs`)
+        # is the two calls it abbreviates
+        alts_ = [(kwt, [])]
+        if kwt.op == "ite" and any(z.op == "call" and call_name(z) == "util.has_kwargs" for z in tm.walk(kwt.a[0])):
+            c0_ = kwt.a[0]
+            pol_ = True
+            while c0_.op == "un" and c0_.a[0] == "not":
+                c0_, pol_ = c0_.a[1], not pol_
+            alts_ = [(kwt.a[1], [(c0_, pol_)]), (kwt.a[2], [(c0_, not pol_)])]
+        for kwt, extra_pc_ in alts_:
+            by_kind = _filter_by_kind(kwt, kwa, fn_t, s)
+            if by_kind is not None:
+                acc, names, from_items, extra = by_kind
+                ctx.cache["filter_name_source"] = "signature"
+                yield ob("C03.FILTERIMPL", f, "util.filter_kwargs:passthrough", acc == {"VAR_KEYWORD"}, "all keywords are passed through exactly when the callee's signature has a **kwargs parameter (kinds that switch the filter off: %s)" % sorted(acc), node=c.node)
+                yield ob("C03.FILTERIMPL", f, "util.filter_kwargs:filter", from_items and names == {"POSITIONAL_OR_KEYWORD", "KEYWORD_ONLY"} and not extra, "a keyword is kept iff it names a parameter of kind %s of inspect.signature(callee), with its own value%s" % (sorted(names), "; extra conditions %s" % extra if extra else ""), node=c.node)
+                continue
+            passthrough = kwt is kwa
+            under_has_kwargs = any(call_name(cnd) == "util.has_kwargs" and p for cnd, p in list(symeval.pc_conds(c.pc)) + extra_pc_)
+            if passthrough:
+                yield ob("C03.FILTERIMPL", f, "util.filter_kwargs:passthrough", under_has_kwargs, "all keywords are passed through only when the callee has **kwargs", node=c.node)
             else:
-                # filtered = {}; for k, v in kwargs.items(): if k in names: filtered[k] = v
-                for m in s.by_kind("mutate"):
-                    if m.how == "setitem" and m.root is not None:
-                        # (what an earlier `if not kwargs: return f(*args)` left behind - kwargs is non-empty - filters nothing)
-                        pcs = [(c2, p) for c2, p in symeval.pc_conds(m.pc) if not (c2 is kwa and p)]
-                        entries.append((m.key, m.val, [c2 for c2, p in pcs if p and call_name(c2) != "util.has_kwargs"] + [tm.unop("not", c2) for c2, p in pcs if not p and call_name(c2) != "util.has_kwargs"], len(symeval.pc_loops(m.pc)), m.node))
-            need(entries, "C03.FILTERIMPL", "filtered keyword dict construction not recognised")
-            for key, val, conds, nloops, node in entries:
-                # key/value are the two components of one item of kwargs.items()
-                from_items = key.op == "sub" and val.op == "sub" and key.a[0] is val.a[0] and tm.is_const(key.a[1], 0) and tm.is_const(val.a[1], 1) and f.kwarg in tm.params_of(key)
-                member = [c2 for c2 in conds if c2.op == "cmp" and c2.a[0] == "in" and c2.a[1] is key]
-                good_names = False
-                name_src = None
-                for c2 in member:
-                    names = c2.a[2]
-                    sg = _signature_names(names, fn_t)
-                    if sg is not None:
-                        good_names = sg
-                        name_src = "signature"
-                        continue
-                    # co_varnames[:co_argcount] of the callee's code object
-                    if names.op == "sub" and names.a[0].op == "attr" and names.a[0].a[1] == "co_varnames" and names.a[1].op == "slice":
-                        lo, hi, st = names.a[1].a
-                        if lo.op == "const" and lo.a[0] is None and st.op == "const" and st.a[0] is None and hi.op == "attr" and hi.a[1] == "co_argcount" and hi.a[0] is names.a[0].a[0]:
-                            code = hi.a[0]
-                            good_names = code.op == "attr" and code.a[1] == "__code__" and code.a[0] is fn_t
-                            name_src = "code"
-                extra_conds = [c2 for c2 in conds if c2 not in member]
-                what = "a keyword is kept iff its name is %s, with its own value" % ("a keyword-passable parameter of inspect.signature(callee)" if name_src == "signature" else "in co_varnames[:co_argcount] of the callee")
-                ctx.cache["filter_name_source"] = name_src
-                if extra_conds:
-                    what += "; found the extra filter condition %s" % "; ".join(tm.show(x, 3) for x in extra_conds)
-                yield ob("C03.FILTERIMPL", f, "util.filter_kwargs:filter", from_items and good_names and not extra_conds and nloops == 1, what, node=node)
+                entries = []  # (key term, value term, [condition terms], n_loops, node)
+                if kwt.op == "comp" and kwt.a[0] == "dict":
+                    # {k: v for k, v in kwargs.items() if ...}
+                    elt = kwt.a[1]
+                    if elt.op == "tuple" and len(elt.a) == 2:
+                        entries.append((elt.a[0], elt.a[1], list(kwt.a[3]), len(kwt.a[2]), c.node))
+                else:
+                    # filtered = {}; for k, v in kwargs.items(): if k in names: filtered[k] = v
+                    for m in s.by_kind("mutate"):
+                        if m.how == "setitem" and m.root is not None:
+                            # (what an earlier `if not kwargs: return f(*args)` left behind - kwargs is non-empty - filters nothing)
+                            pcs = [(c2, p) for c2, p in symeval.pc_conds(m.pc) if not (c2 is kwa and p)]
+                            entries.append((m.key, m.val, [c2 for c2, p in pcs if p and call_name(c2) != "util.has_kwargs"] + [tm.unop("not", c2) for c2, p in pcs if not p and call_name(c2) != "util.has_kwargs"], len(symeval.pc_loops(m.pc)), m.node))
+                need(entries, "C03.FILTERIMPL", "filtered keyword dict construction not recognised")
+                for key, val, conds, nloops, node in entries:
+                    # key/value are the two components of one item of kwargs.items()
+                    from_items = key.op == "sub" and val.op == "sub" and key.a[0] is val.a[0] and tm.is_const(key.a[1], 0) and tm.is_const(val.a[1], 1) and f.kwarg in tm.params_of(key)
+                    member = [c2 for c2 in conds if c2.op == "cmp" and c2.a[0] == "in" and c2.a[1] is key]
+                    good_names = False
+                    name_src = None
+                    for c2 in member:
+                        names = c2.a[2]
+                        sg = _signature_names(names, fn_t)
+                        if sg is not None:
+                            good_names = sg
+                            name_src = "signature"
+                            continue
+                        # co_varnames[:co_argcount] of the callee's code object
+                        if names.op == "sub" and names.a[0].op == "attr" and names.a[0].a[1] == "co_varnames" and names.a[1].op == "slice":
+                            lo, hi, st = names.a[1].a
+                            if lo.op == "const" and lo.a[0] is None and st.op == "const" and st.a[0] is None and hi.op == "attr" and hi.a[1] == "co_argcount" and hi.a[0] is names.a[0].a[0]:
+                                code = hi.a[0]
+                                good_names = code.op == "attr" and code.a[1] == "__code__" and code.a[0] is fn_t
+                                name_src = "code"
+                    if member and name_src is None:
+                        raise AnalysisError("C03.FILTERIMPL", "filter_kwargs: the set of accepted names (%s) is not built in a form this rule reads" % tm.show(member[0].a[2], 3))
+                    extra_conds = [c2 for c2 in conds if c2 not in member]
+                    what = "a keyword is kept iff its name is %s, with its own value" % ("a keyword-passable parameter of inspect.signature(callee)" if name_src == "signature" else "in co_varnames[:co_argcount] of the callee")
+                    ctx.cache["filter_name_source"] = name_src
+                    if extra_conds:
+                        what += "; found the extra filter condition %s" % "; ".join(tm.show(x, 3) for x in extra_conds)
+                    yield ob("C03.FILTERIMPL", f, "util.filter_kwargs:filter", from_items and good_names and not extra_conds and nloops == 1, what, node=node)
 
 
 # ---------------------------------------------------------------- ROLEARGS
